@@ -354,7 +354,7 @@ class AST:
         chain = []
         p = n
         while True:
-            if 'parentDeclContextId' in p and p is n:
+            if 'parentDeclContextId' in p and self.by_id.get(p['parentDeclContextId']) is not None:
                 p = self.by_id.get(p['parentDeclContextId'])
             else:
                 p = self.parent.get(id(p))
@@ -482,6 +482,9 @@ class Lowerer:
             nbytes = int(mv.group(1)) * {'long long': 8, 'char': 1, 'short': 2, 'int': 4, 'float': 4, 'double': 8}[mv.group(2)]
             self.need_vec.add(nbytes)
             s = s.replace(mv.group(0), 'qx_vec%d' % nbytes)
+        if re.search(r'\(\*\)\s*\(', s) or re.search(r'\(\*const\)\s*\(', s):
+            # pointer to function: represented as an opaque code pointer (only identity comparisons and pass-through are supported)
+            return CType('void', [('ptr', False)], False, 'scalar', None)
         if '(' in s and not re.search(r'\(\*\)|\(&\)', s) and ')' in s and not s.endswith(']'):
             # function type or function pointer: only void* representation is supported
             raise LowerError('function type %r' % s)
